@@ -41,7 +41,7 @@ class CallMixin:
     def getattr(self, st, o, attr, e=None, fx=None):
         ln = getattr(e, 'lineno', 0)
         if isinstance(o, SObj):
-            fields = st.objs[o.oid]
+            fields = st.fields(o)
             if attr in fields:
                 return [(st, fields[attr])]
             if attr == '__class__':
@@ -530,6 +530,42 @@ class CallMixin:
         if c is None:
             raise ToolLimit('chain.from_iterable needs the assumed contract builtin.chain')
         return c.apply(self, st, {'xss': pos[0]})
+
+    def bi_dateutil_parser_parse(self, f, pos, kws, st, ln):
+        v = pos[0]
+        self.assumed_used.add('A-DT')
+        if isinstance(v, SNone):
+            return [self.raise_(st, 'TypeError', origin='parse(None) L%d' % ln)]
+        if not isinstance(v, SStr):
+            raise ToolLimit('dateutil parse of %r' % (v,))
+        out = []
+        for s2, isnull in self.branch(st, v.t == none_s, 'isnone'):
+            if isnull:
+                out.append(self.raise_(s2, 'TypeError', origin='parse(None) L%d' % ln))
+                continue
+            for s3, ok in self.branch(s2, L.is_dt(v.t), 'isdt'):
+                if ok:
+                    out.append((s3, SOpaque(L.dt_of(v.t), 'datetime')))
+                else:
+                    out.append(self.raise_(s3, 'ValueError', origin='dateutil parse L%d' % ln))
+        return out
+
+    def bi_datetime_timedelta(self, f, pos, kws, st, ln):
+        v = kws.get('seconds')
+        self.assumed_used.add('A-DT')
+        if isinstance(v, SReal):
+            out = []
+            for s2, bad in self.branch(st, v.isnone, 'isnone'):
+                if bad:
+                    out.append(self.raise_(s2, 'TypeError', origin='timedelta(seconds=None) L%d' % ln))
+                else:
+                    out.append((s2, SOpaque(v.t, 'timedelta')))
+            return out
+        if isinstance(v, SInt):
+            return [(st, SOpaque(z3.ToReal(v.t), 'timedelta'))]
+        if isinstance(v, SNone):
+            return [self.raise_(st, 'TypeError', origin='timedelta(seconds=None) L%d' % ln)]
+        raise ToolLimit('timedelta(%r)' % (v,))
 
     # --- str methods (A-STR: uninterpreted but functional)
     def bi_str_strip(self, f, pos, kws, st, ln):
